@@ -360,35 +360,55 @@ KNOWN_COPIED_ORDER = 'C02-copied-components-behind-root'
 
 
 def components_of_with_marker(ck):
-    """COMPONENTS OF next to an extension marker: the fields of the including type and their extension_addition flags against
-    the linker model (Expansion.link_marked, inside Coq) and against the meaning: the copied root components and the own root
-    components are no additions, the own additions -- all of them, nothing else -- are; order = the notation replaced in place"""
+    """COMPONENTS OF next to an extension marker, one or two levels deep: the fields of the including types and their
+    extension_addition flags against the linker model (Expansion.link_marked, inside Coq) and against the meaning: the copied root
+    components and the own root components are no additions, the own additions -- all of them, nothing else -- are; order = the
+    notation replaced in place"""
     rng = ck.rng
-    n = 40 if ck.tier == 'quick' else 600
+    n = 60 if ck.tier == 'quick' else 900
     cases, meta = [], []
     for k in range(n):
-        nx = rng.randint(1, 3)
-        xroot = ['x%d' % i for i in range(nx)]
-        xadds = ['xa%d' % i for i in range(rng.choice([0, 0, 1, 2]))]
-        xmark = bool(xadds) or rng.random() < 0.3
-        own_root = ['r%d' % i for i in range(rng.randint(0, 3))]
-        own_adds = ['a%d' % i for i in range(rng.randint(0, 3))]
-        marker = bool(own_adds) or rng.random() < 0.5
-        pos = rng.randint(0, len(own_root))
-        kind = rng.choice(['SEQUENCE', 'SEQUENCE', 'SET'])
         ty = lambda nm: '%s %s' % (nm, rng.choice(['BOOLEAN', 'NULL', 'INTEGER', 'IA5String']))
-        xx = ', '.join([ty(m) for m in xroot] + (['...'] if xmark else []) + [ty(m) for m in xadds])
-        root_txt = [ty(m) for m in own_root]
-        root_txt.insert(pos, 'COMPONENTS OF Xx')
-        aa = ', '.join(root_txt + (['...'] if marker else []) + [ty(m) for m in own_adds])
-        # names chosen so that the including type is processed after (Aa) or before (Zz) the included one in the pass
+        kind = rng.choice(['SEQUENCE', 'SEQUENCE', 'SET'])
+
+        def level(prefix, lo):
+            root = ['%s%d' % (prefix, i) for i in range(rng.randint(lo, 3))]
+            adds = ['%sa%d' % (prefix, i) for i in range(rng.choice([0, 0, 1, 2]))]
+            return root, adds, bool(adds) or rng.random() < 0.4
+
+        def text(root, adds, mark, pos, ref):
+            items = [ty(m) for m in root]
+            if ref:
+                items.insert(pos, 'COMPONENTS OF %s' % ref)
+            return ', '.join(items + (['...'] if mark else []) + [ty(m) for m in adds])
+
+        yroot, yadds, ymark = level('y', 1)
+        deep = rng.random() < 0.5
+        xroot, xadds, xmark = level('x', 1)
+        xpos = rng.randint(0, len(xroot))
+        own_root, own_adds, marker = level('r', 0)
+        pos = rng.randint(0, len(own_root))
+        # names chosen so that each including type is processed after (Aa, Mm) or before (Zz, Xx) the one it includes in the pass
         incl = rng.choice(['Aa', 'Zz'])
-        src = 'Mk%d DEFINITIONS AUTOMATIC TAGS ::= BEGIN\nXx ::= %s { %s }\n%s ::= %s { %s }\nEND\n' % (k, kind, xx, incl, kind, aa)
+        mid = rng.choice(['Mm', 'Xx'])
+        inner = rng.choice(['Bb', 'Yy'])
+        lines = ['%s ::= %s { %s }' % (mid, kind, text(xroot, xadds, xmark, xpos, inner if deep else None)),
+                 '%s ::= %s { %s }' % (incl, kind, text(own_root, own_adds, marker, pos, mid))]
+        if deep:
+            lines.append('%s ::= %s { %s }' % (inner, kind, text(yroot, yadds, ymark, 0, None)))
+        rng.shuffle(lines)
+        src = 'Mk%d DEFINITIONS AUTOMATIC TAGS ::= BEGIN\n%s\nEND\n' % (k, '\n'.join(lines))
         cases.append({'op': 'compile', 'sources': [src]})
-        meta.append((src, incl, own_root, own_adds, xroot, marker, pos))
+        # what each including type copies: the root of the included one after ITS notation has been resolved (own root, then copied)
+        mid_copied = yroot if deep else []
+        subjects = [(incl, own_root, own_adds, xroot + mid_copied, marker,
+                     own_root[:pos] + (xroot[:xpos] + mid_copied + xroot[xpos:]) + own_root[pos:] + own_adds)]
+        if deep:
+            subjects.append((mid, xroot, xadds, yroot, xmark, xroot[:xpos] + yroot + xroot[xpos:] + xadds))
+        meta.append((src, subjects))
     res = run_harness(cases)
     terms, idx = [], []
-    for (src, incl, own_root, own_adds, xroot, marker, pos), r in zip(meta, res):
+    for (src, subjects), r in zip(meta, res):
         ck.note_case(src)
         ck.count('components-of-with-marker')
         if 'panic' in r or 'crash' in r:
@@ -399,30 +419,30 @@ def components_of_with_marker(ck):
                          impl={x: y for x, y in r.items() if x not in ('generated', 'items')})
             continue
         mod = [m for m in r['items'] if m.get('kind') == 'mod'][0]
-        it = [x for x in mod['items'] if x.get('name') == incl and x.get('kind') == 'struct']
-        if not it:
-            ck.violation('impl-violation', src, why='no struct for %s' % incl)
-            continue
-        obs = [(f['name'], any('extension_addition' in a for a in f['attrs'])) for f in it[0]['fields']]
-        terms.append('(%s, %s, %s, %s, %s)' % (clist(own_root, cstr), clist(own_adds, cstr), clist(xroot, cstr), cbool(marker),
-                                              clist(obs, lambda p: '(%s, %s)' % (cstr(p[0]), cbool(p[1])))))
-        idx.append(src)
-        # the meaning of the notation
-        want_flags = dict([(m, False) for m in own_root + xroot] + [(m, True) for m in own_adds])
-        want_order = own_root[:pos] + xroot + own_root[pos:] + own_adds
-        if dict(obs) != want_flags or len(obs) != len(want_flags):
-            ck.violation('impl-violation', src, fields=obs, expected=want_flags,
-                         why='the fields of %s or their extension_addition marking are not those of its components: own and copied root '
-                             'components are no additions, the components after the marker are' % incl)
-        elif [x for x, _ in obs] != want_order:
-            if ck.is_known(KNOWN_COPIED_ORDER):
-                ck.known_hit(KNOWN_COPIED_ORDER, {'asn1': src, 'fields': [x for x, _ in obs], 'expansion': want_order})
-            else:
-                ck.violation('impl-violation', src, fields=[x for x, _ in obs], expansion=want_order,
-                             why='the fields of %s are not in the order of its expansion' % incl)
+        for name, own_root, own_adds, copied, marker, want_order in subjects:
+            it = [x for x in mod['items'] if x.get('name') == name and x.get('kind') == 'struct']
+            if not it:
+                ck.violation('impl-violation', src, why='no struct for %s' % name)
+                continue
+            obs = [(f['name'], any('extension_addition' in a for a in f['attrs'])) for f in it[0]['fields']]
+            terms.append('(%s, %s, %s, %s, %s)' % (clist(own_root, cstr), clist(own_adds, cstr), clist(copied, cstr), cbool(marker),
+                                                  clist(obs, lambda p: '(%s, %s)' % (cstr(p[0]), cbool(p[1])))))
+            idx.append((src, name))
+            # the meaning of the notation
+            want_flags = dict([(m, False) for m in own_root + copied] + [(m, True) for m in own_adds])
+            if dict(obs) != want_flags or len(obs) != len(want_flags):
+                ck.violation('impl-violation', src, type=name, fields=obs, expected=want_flags,
+                             why='the fields of %s or their extension_addition marking are not those of its components: own and copied root '
+                                 'components are no additions, the components after the marker are' % name)
+            elif [x for x, _ in obs] != want_order:
+                if ck.is_known(KNOWN_COPIED_ORDER):
+                    ck.known_hit(KNOWN_COPIED_ORDER, {'asn1': src, 'type': name, 'fields': [x for x, _ in obs], 'expansion': want_order})
+                else:
+                    ck.violation('impl-violation', src, type=name, fields=[x for x, _ in obs], expansion=want_order,
+                                 why='the fields of %s are not in the order of its expansion' % name)
     for j in coq_eval_bad('C02', REQ, 'list str * list str * list str * bool * list (str * bool)', 'corr_link', terms, label='link'):
         ck.broken.append({'kind': 'correspondence', 'item': 'COMPONENTS OF next to an extension marker (Expansion.link_marked)',
-                          'detail': 'model and implementation disagree on %s (%s)' % (idx[j], terms[j][-300:])})
+                          'detail': 'model and implementation disagree on %s in %s (%s)' % (idx[j][1], idx[j][0], terms[j][-300:])})
     ck.coverage['traces_validated_against_impl'] = ck.coverage.get('traces_validated_against_impl', 0) + len(terms)
 
 
